@@ -188,7 +188,15 @@ BaseOf(D, p, steps) ==
          ELSE BaseOf(D, Append(p, st[2]), Tail(steps))
 
 CtxBase(D, ctx) == BaseOf(D, ctx[1], ctx[2])
-CtxExists(D, ctx) == CtxBase(D, ctx) \in D.sp
+RECURSIVE StepsOK(_, _, _)
+StepsOK(D, p, steps) ==
+    IF Len(steps) = 0 THEN p \in D.sp
+    ELSE IF steps[1][1] = "i"
+         THEN /\ p \in D.sp /\ p \in DOMAIN D.pf
+              /\ Len(steps[1][3]) = Len(D.flib[D.pf[p]].ps)
+              /\ StepsOK(D, p, Tail(steps))
+         ELSE StepsOK(D, Append(p, steps[1][2]), Tail(steps))
+CtxExists(D, ctx) == StepsOK(D, ctx[1], ctx[2])
 
 \* arguments visible in a dynamic context, nearest ItemSpace first
 RECURSIVE ArgOf(_, _, _, _)
@@ -225,11 +233,21 @@ DynRebind(D, ctx, r, v) ==
 (* Name resolution: what a bare name denotes inside the namespace of a     *)
 (* context, and what an attribute of an object denotes.                    *)
 
+\* references an ItemSpace gets from the dict its parameter formula returns
+\* ({"refs": {...}}); visible in that ItemSpace only, not in its children
+ParentBase(D, ctx) == BaseOf(D, ctx[1], Front(ctx[2]))
+ItemRefs(D, ctx) ==
+    IF Len(ctx[2]) = 0 \/ Last(ctx[2])[1] # "i" THEN <<>>
+    ELSE LET pb == ParentBase(D, ctx) IN
+         IF pb \in DOMAIN D.pf /\ "refs" \in DOMAIN D.flib[D.pf[pb]]
+         THEN D.flib[D.pf[pb]].refs ELSE <<>>
+
 Look(D, ctx, name) ==
     LET b == CtxBase(D, ctx) IN
     IF name \in ENames(D, b, "cells") THEN CeObj(ctx[1], ctx[2], name)
     ELSE IF Len(ctx[2]) > 0 /\ ArgOf(D, ctx[1], ctx[2], name) # NoObj
          THEN ArgOf(D, ctx[1], ctx[2], name)
+    ELSE IF name \in DOMAIN ItemRefs(D, ctx) THEN IntObj(ItemRefs(D, ctx)[name])
     ELSE IF name \in {"_self", "_space"} THEN SpObj(ctx[1], ctx[2])
     ELSE IF name = "_model" THEN ModelObj
     ELSE IF name \in ENames(D, b, "refs")
@@ -288,6 +306,20 @@ AllowNone(D, ctx, c) ==
 -----------------------------------------------------------------------------
 (* The denotational evaluator.                                             *)
 
+\* <<"icall", spacepath, keyargs, cellsname, args, spelling>>:  P[k].c(a)
+\* the ItemSpace context such an op denotes (Fail when it denotes none)
+ItemCtx(D, ctx, key, op) ==
+    LET sp == Resolve(D, ctx, op[2]) IN
+    IF sp[1] # "sp" THEN Fail
+    ELSE LET b == BaseOf(D, sp[2], sp[3]) IN
+         IF b \notin D.sp \/ b \notin DOMAIN D.pf THEN Fail
+         ELSE LET vals == [i \in 1..Len(op[3]) |-> ArgVal(op[3][i], key)]
+                  ps == D.flib[D.pf[b]].ps IN
+              IF ~BindOK(ps, vals) THEN Fail
+              ELSE <<sp[2], Append(sp[3], <<"i", "", Bind(ps, vals)>>)>>
+\* rewritten as an ordinary call op evaluated in that ItemSpace
+AsCall(op) == <<"call", <<op[4]>>, op[5], op[6]>>
+
 \* error code of a call op that denotes no element (0 when it denotes one)
 CallErr(D, ctx, key, op) ==
     LET tgt == Resolve(D, ctx, op[2]) IN
@@ -319,6 +351,20 @@ EvOp(D, ctx, key, op) ==
             ELSE LET ce == CallErr(D, ctx, key, op) IN
                  IF ce # 0 THEN ce
                  ELSE LET v == Den(D, CallTarget(D, ctx, key, op)) IN
+                      IF IsErr(v) THEN v ELSE IF v = NoneV THEN NoneContrib ELSE v
+      [] op[1] = "icall" ->
+            LET ic == ItemCtx(D, ctx, key, op)
+                sp == Resolve(D, ctx, op[2]) IN
+            IF ic = Fail
+            THEN (IF sp = NoObj THEN ErrName
+                  ELSE IF IsDead(sp) THEN ErrDeleted
+                  ELSE IF sp[1] = "sp" /\ BaseOf(D, sp[2], sp[3]) \in D.sp
+                          /\ BaseOf(D, sp[2], sp[3]) \notin DOMAIN D.pf
+                  THEN ErrName            \* indexing a space without parameters: AttributeError
+                  ELSE ErrType)
+            ELSE LET ce == CallErr(D, ic, key, AsCall(op)) IN
+                 IF ce # 0 THEN ce
+                 ELSE LET v == Den(D, CallTarget(D, ic, key, AsCall(op))) IN
                       IF IsErr(v) THEN v ELSE IF v = NoneV THEN NoneContrib ELSE v
 
 EvOps(D, ctx, key, ops, i, acc) ==
@@ -364,6 +410,20 @@ Called(D, n) ==
          {CallTarget(D, ctx, n[4], ops[i]) :
              i \in {j \in ix : ops[j][1] = "call" /\ ~Skipped(ops[j][3], n[4])
                                /\ CallErr(D, ctx, n[4], ops[j]) = 0}}
+         \cup
+         {CallTarget(D, ItemCtx(D, ctx, n[4], ops[i]), n[4], AsCall(ops[i])) :
+             i \in {j \in ix : ops[j][1] = "icall" /\ ItemCtx(D, ctx, n[4], ops[j]) # Fail
+                               /\ CallErr(D, ItemCtx(D, ctx, n[4], ops[j]), n[4], AsCall(ops[j])) = 0}}
+
+\* ItemSpaces the formula of n creates/uses directly: nodes <<path, steps, "", key>>
+ItemsUsed(D, n) ==
+    IF IsInput(D, n) THEN {}
+    ELSE LET ctx == <<n[1], n[2]>>
+             ops == FRec(D, CellRecOf(D, ctx, n[3])).ops
+             ix  == Reached(D, ctx, n[4], ops, 1) IN
+         {LET ic == ItemCtx(D, ctx, n[4], ops[i]) IN
+            <<ic[1], Front(ic[2]), "", Last(ic[2])[3]>> :
+             i \in {j \in ix : ops[j][1] = "icall" /\ ItemCtx(D, ctx, n[4], ops[j]) # Fail}}
 
 \* ... of which those that completed (hold a value if cached)
 CalledOK(D, n) == {m \in Called(D, n) : ~IsErr(Den(D, m))}
@@ -376,6 +436,7 @@ RECURSIVE GraphPreds(_, _)
 \* what preds() must list for a computed element n: cached callees, and for
 \* uncached callees the cells itself plus what it reached
 GraphPreds(D, n) ==
+    ItemsUsed(D, n) \cup
     UNION { IF IsCachedNode(D, m) THEN {m}
             ELSE {ObjNode(m)} \cup GraphPreds(D, m) : m \in CalledOK(D, n) }
 
